@@ -806,6 +806,12 @@ def watch_history(ctx, res, cp, prop, h, length=5, stack=False, ext_sources=Fals
     # the previous re-check resolved last is exactly the one that no longer exists
     hist[3] = "add r0 r0 #1\nbr loop\nhalt\n"
     old_mtime_steps = {3}
+    if length >= 5 and not stack and not ext_sources:
+        # ... followed by a repaired version of exactly the same length, moved into place with exactly the same
+        # (old) modification time: size and date say nothing about what a file holds
+        hist[4] = "add r0 r0 #1\nbr #-2 \nhalt\n"
+        assert len(hist[4]) == len(hist[3])
+        old_mtime_steps = {3, 4}
     if length >= 6:
         hist[5] = "loop add r0 r0 #1\nbrz nowhere\nhalt\n"
     path = os.path.join(d, "w.asm")
